@@ -15,6 +15,7 @@ import (
 	"encoding/json"
 	"fmt"
 	"io"
+	"net"
 	"os"
 	"os/exec"
 	"path/filepath"
@@ -60,6 +61,8 @@ type e2eCfg struct {
 	onStart func(r *e2eRun)
 	// maximum wall time before the harness gives up (hang detection)
 	deadline time.Duration
+	// tunnel connector handed to the client (filter.SetTunnelConnector); nil = no tunnel
+	connector func(port int) net.Conn
 }
 
 type e2eRun struct {
@@ -280,6 +283,9 @@ func runTransfer(cfg e2eCfg, src []string, dest string) e2eResult {
 	svrOutR, svrOutW := io.Pipe()
 	filter := trzsz.NewTrzszFilter(cliInR, termWriter{r}, serverInWriter{r}, svrOutR, trzsz.TrzszOptions{TerminalColumns: 100})
 	r.filter = filter
+	if cfg.connector != nil {
+		filter.SetTunnelConnector(cfg.connector)
+	}
 	var upCh <-chan error
 	if cfg.upload {
 		var err error
